@@ -19,7 +19,7 @@ CLAIMS = {
  'C09': ("row-lock kernel only (the clauses 'no other transaction can modify a locked row' and 'locks disappear when the owner ends or times out' at the lock table): RowLockManager try_lock refuses exactly live foreign locks and grants all-or-nothing, release/expiry remove exactly the owner's/expired entries, is_locked/lock_holder are truthful, the reverse-index invariant is preserved - from every table of the bounded shape; all-or-nothing commit/rollback over rows and indexes, TransactionManager and the engine's locking discipline are not decided", "§4 C09"),
  'C10': ("RaftWal: crash at every byte of the last record, reopen, append, restart: no acknowledged term/vote/log record is lost; recovery classification returns the last persisted term and vote; node level with the real WAL behind the real handlers: after handle_request_vote/start_election/handle_append_entries the term, vote and log rebuilt by the real from_wal equal the in-memory ones, and an entry accepted by propose / propose_codebook_replace on a leader is in the rebuilt log (crash is the only fault); one known finding: an installed snapshot is not in the log file", "§4 C10"),
  'C12': ("sequential lock-table and wait-graph bookkeeping from an arbitrary table satisfying the representation invariant: conflicts refused with nothing acquired, grants all-or-nothing under a fresh handle, release/expiry leave nothing behind, invariant preserved, forward/reverse wait edges stay mirror images, detect_cycles reports a cycle exactly when the recorded edges of a graph on up to 3 transactions contain one, would_create_cycle is exact, victim is a member of the cycle; thread interleavings and larger graphs are not decided", "§4 C12"),
- 'C13': ("TxWal: same crash obligations as C10; TxRecoveryState::from_entries never resurrects a completed transaction, returns prepared ones with their votes, forgets preparing ones and lists orphaned lock handles exactly; coordinator commit()/abort() with the real TxWal: a crash at any byte of the call recovers either the logged decision or the still-prepared transaction, never the opposite outcome", "§4 C13"),
+ 'C13': ("TxWal: same crash obligations as C10; TxRecoveryState::from_entries never resurrects a completed transaction, returns prepared ones with their votes, forgets preparing ones and lists orphaned lock handles exactly; coordinator commit()/abort() with the real TxWal: a crash at any byte of the call recovers either the logged decision or the still-prepared transaction, never the opposite outcome; recover_from_wal rebuilds exactly the pending table the log describes and a recovered prepared transaction can be committed", "§4 C13"),
  'C15': ("both real Pratt loops (ExprParser and Parser) executed on symbolic token streams: for every pair of infix operators a OP1 b OP2 c groups per the documented precedence levels and left associativity, prefix operators bind tighter than every infix operator, token->operator map is injective; lexer/totality/depth/text-vs-engine equivalence not decided", "§4 C15"),
  'C16': ("chain link/validation logic only, with hashes, Merkle roots and signature verdicts opaque per block: Chain::append accepts exactly blocks with height = tip+1, prev_hash = tip hash, matching transaction root and (above height 1) a signature that verifies when keys are registered, then advances height/tip and stores the block, and changes nothing when it refuses; Chain::verify_chain succeeds exactly when every block 1..height is present and passes all link checks; tamper-evidence then rests on the cryptographic assumptions (not checked); workspace commit atomicity, concurrent commits and replica determinism are not decided", "§4 C16"),
  'C17': ("newer-wins kernel is a strict order; the real merge gives the same view for every order/batching/repetition of the same updates; clock and incarnations never regress under any single operation", "§4 C17"),
